@@ -77,7 +77,7 @@ Lemma prod_union_expr : body G_xpath nt_union_expr =
 Proof. reflexivity. Qed.
 
 Lemma prod_path_expr : body G_xpath nt_path_expr =
-  (Alt (Map L_closure_9d18401b (Seq (NT nt_filter_expr) (Seq (SeqR WS (SeqL (Map L_model_LocationPathOperator_from (Alt (Tag [47;47]) (Tag [47]))) WS)) (NT nt_relative_location_path)))) (Alt (Map L_model_PathExpr_from (NT nt_filter_expr)) (Alt (Map L_closure_1402352e (Seq (SeqL (Map L_model_LocationPathOperator_from (Alt (Tag [47;47]) (Tag [47]))) WS) (NT nt_relative_location_path))) (Alt (Map L_model_PathExpr_from (NT nt_filter_expr)) (Alt (Map L_model_PathExpr_from (NT nt_relative_location_path)) (Map L_closure_be3a7f28 (Tag [47]))))))).
+  (Alt (Map L_closure_dae0d720 (Seq (NT nt_filter_expr) (Opt (Seq (SeqR WS (SeqL (Map L_model_LocationPathOperator_from (Alt (Tag [47;47]) (Tag [47]))) WS)) (NT nt_relative_location_path))))) (Alt (Map L_closure_1402352e (Seq (SeqL (Map L_model_LocationPathOperator_from (Alt (Tag [47;47]) (Tag [47]))) WS) (NT nt_relative_location_path))) (Alt (Map L_model_PathExpr_from (NT nt_relative_location_path)) (Map L_closure_be3a7f28 (Tag [47]))))).
 Proof. reflexivity. Qed.
 
 Lemma prod_filter_expr : body G_xpath nt_filter_expr =
@@ -121,7 +121,7 @@ Lemma prod_number : body G_xpath nt_number =
 Proof. reflexivity. Qed.
 
 Lemma prod_function_name : body G_xpath nt_function_name =
-  (NT nt_qname).
+  (Alt (Map L_QName_from (Map L_PrefixedName_from (Seq (NT nt_ncname) (SeqR (Tag [58]) (NT nt_ncname))))) (Map L_QName_from (TakeExcept (TakeExcept (TakeExcept (TakeExcept (NT nt_ncname) [99;111;109;109;101;110;116]) [116;101;120;116]) [112;114;111;99;101;115;115;105;110;103;45;105;110;115;116;114;117;99;116;105;111;110]) [110;111;100;101]))).
 Proof. reflexivity. Qed.
 
 Lemma prod_variable_reference : body G_xpath nt_variable_reference =
